@@ -33,6 +33,9 @@ func mirrorIPFIXDispatcher(ch chan IPFIXUDPMsg) {
 		ch4 = make(chan IPFIXUDPMsg, 1000)
 		ch6 = make(chan IPFIXUDPMsg, 1000)
 		msg IPFIXUDPMsg
+
+		// which of the two channels a mirror worker reads
+		has4, has6 bool
 	)
 
 	if opts.IPFIXMirrorAddr == "" {
@@ -44,8 +47,10 @@ func mirrorIPFIXDispatcher(ch chan IPFIXUDPMsg) {
 
 		if dst.To4() != nil {
 			go mirrorIPFIX(dst, opts.IPFIXMirrorPort, ch4)
+			has4 = true
 		} else {
 			go mirrorIPFIX(dst, opts.IPFIXMirrorPort, ch6)
+			has6 = true
 		}
 	}
 
@@ -54,10 +59,15 @@ func mirrorIPFIXDispatcher(ch chan IPFIXUDPMsg) {
 
 	for {
 		msg = <-ch
-		if msg.raddr.IP.To4() != nil {
+		switch v4 := msg.raddr.IP.To4() != nil; {
+		case v4 && has4:
 			ch4 <- msg
-		} else {
+		case !v4 && has6:
 			ch6 <- msg
+		default:
+			// no worker serves this address family: queueing
+			// the datagram would block the dispatcher for good
+			ipfixBuffer.Put(msg.body[:opts.IPFIXUDPSize])
 		}
 	}
 }
@@ -115,8 +125,10 @@ func mirrorIPFIX(dst net.IP, port int, ch chan IPFIXUDPMsg) error {
 
 		ipfixBuffer.Put(msg.body[:opts.IPFIXUDPSize])
 
+		// a datagram the path can not carry (e.g. longer than the MTU)
+		// is lost; the worker goes on with the next one
 		if err = conn.Send(packet[0 : ipHLen+8+pLen]); err != nil {
-			return err
+			logger.Println(err)
 		}
 	}
 }
